@@ -40,6 +40,10 @@ func (this *StateValidatorListParam) Deserialization(source *common.ZeroCopySour
 	if eof {
 		return fmt.Errorf("source.NextVarUint, deserialize StateValidators length error")
 	}
+	// every entry occupies at least one byte (its length prefix): never allocate for more than the input can hold
+	if n > source.Len() {
+		return fmt.Errorf("source.NextVarUint, StateValidators length %d exceeds remaining data", n)
+	}
 	stateValidators := make([]string, 0, n)
 	for i := 0; uint64(i) < n; i++ {
 		ss, eof := source.NextString()
